@@ -94,9 +94,10 @@ URL_IN_HTML_BINARY_RE = re.compile(URL_IN_HTML_BINARY, re.I)
 QUERY_VALUE_IN_URL_TEMPLATE = r"(?:^|[?&])(%s)=([^&]+)"
 QUERY_VALUE_TEMPLATE = r"%s=([^&]+)"
 
-# NOTE: the userinfo cannot span over a path, and the hostname ends at the port,
-# path, query, fragment or at the end of the url
-DOMAIN_TEMPLATE = r"^(?:https?:)?(?://)?(?:[^\s/?#@]+@)?%s(?:[:/?#]|\s*$)"
+# NOTE: the userinfo cannot span over a path, and the hostname ends at the port
+# (digits only, else the colon belongs to a userinfo), path, query, fragment or
+# at the end of the url
+DOMAIN_TEMPLATE = r"^(?:https?:)?(?://)?(?:[^\s/?#@]+@)?%s(?::\d*)?(?:[/?#]|\s*$)"
 SUBDOMAINS = r"(?:[^\s./?#:@]+\.)*"
 
 SCRIPT_TAG = r"<script\b[^<]*(?:(?!<\/script>)<[^<]*)*<\/script>"
